@@ -939,7 +939,12 @@ impl<'a> Gen<'a> {
             return;
         }
         let k = (*self.r.pick(&[1u8, 2, 2, 3, 3, 3, 4, 4, 5, 6, 8])).min(self.ev.len() as u8);
-        let n = *self.r.pick(&[3u16, 15, 127, 255, 256, 257, 257, 300, 600]);
+        let mut n = *self.r.pick(&[3u16, 15, 127, 255, 256, 257, 257, 300, 600]);
+        if self.r.chance(1, 150) {
+            // 16-bit counters: expensive, so rare and with a short window
+            n = *self.r.pick(&[65535u16, 65534, 65533]);
+        }
+        let k = if n > 1000 { k.min(3) } else { k };
         self.soaks += 1;
         self.fire(F_SOAK_LOOP, None);
         self.ev.push(Ev::Repeat { k, n });
